@@ -121,12 +121,12 @@ Theorem round_unicode2 d b a : bytes d -> to_ascii A cfg d deny hy DIgnore = Ok 
   Known_C12 A cfg d deny hy = false ->
   exists bu u b' bu', to_unicode A cfg d deny hy = UI bu u false /\
     to_ascii A cfg (utf8_encode u) deny hy DIgnore = Ok (b', a) /\
-    to_unicode A cfg (utf8_encode u) deny hy = UI bu' u false.
+    to_unicode A cfg (utf8_encode u) deny hy = UI bu' u false /\ usv_list u.
 Proof.
   intros Hb H Hlong HK12. pose proof (redisc_of_adapter A cfg deny (ok_nil A HOK) HU) as HR.
   destruct (first_run A cfg deny hy HU HL HOK HUSV HNT HNI HNM HMP d b a Hb H)
     as [(-> & Had & HTd)|(pl & DBL & ap & bd & os & ou & bu & Ei & Hpl & HD & HPK & Hbidi & Hbok & Eo & Hos & Ha & Eu & Hou & HTu)].
-  - exists true, d, b, true. rewrite (utf8_encode_ascii d Had). repeat split; assumption.
+  - exists true, d, b, true. rewrite (utf8_encode_ascii d Had). split; [exact HTd|]. split; [exact H|]. split; [exact HTd|exact (ascii_usv d Had)].
   - pose proof (pairok_all_nodot A cfg deny hy _ _ HPK) as HDn.
     destruct (outs_nodot A cfg deny hy HU HL DBL ap os HPK Eo) as [Hosn Hosl].
     destruct (inner_ff_facts A cfg hy deny d _ _ _ _ _ Ei) as [HX|[_ Hm]]; [inversion HX|].
@@ -177,7 +177,7 @@ Proof.
     destruct (virtual_unicode A cfg deny hy HU HL HR _ _ _ _ bd Hbw Hp HV Hk) as (bu' & ov & Eov & HTw).
     rewrite VL_app, (VL_nodot _ (pass_all_nodot _ Hpl)), (VL_nodot _ HDn), concat_app, concat_mca, Hcc in Eov.
     rewrite (outs_mca cfg uT _ _ pl pl eq_refl), U4, (pass_all_lower deny HU HL _ Hpl) in Eov. inversion Eov. subst ov.
-    exists bu, u, b', bu'. rewrite <- Ha in HTa. repeat split; assumption.
+    exists bu, u, b', bu'. rewrite <- Ha in HTa. split; [exact HTu|]. split; [exact HTa|]. split; [exact HTw|exact Huu].
 Qed.
 End Round2.
 
@@ -193,7 +193,19 @@ Theorem c12_round2 A cfg : AdapterOK A -> AdapterUSV A -> NvNoTrunc A -> NvIdem 
 Proof.
   intros HOK HUSV HNT HNI HNM HMP HMF HNG d deny hy b a Hb Hv HK H Hlong. destruct (valid_deny_facts deny Hv) as [HU HL].
   destruct (c12_u_of_a A cfg HOK HUSV HNT HNI HNM HMP d deny hy b a Hb Hv H Hlong) as (C1 & C2 & _).
-  destruct (round_unicode2 A cfg deny hy HU HL HOK HUSV HNT HNI HNM HMP HMF HNG d b a Hb H Hlong HK) as (bu & u & b' & bu' & E1 & E2 & E3).
+  destruct (round_unicode2 A cfg deny hy HU HL HOK HUSV HNT HNI HNM HMP HMF HNG d b a Hb H Hlong HK) as (bu & u & b' & bu' & E1 & E2 & E3 & _).
   cbv zeta. rewrite E1. cbn [ui_text]. split; [split; [rewrite C1, E1; reflexivity|exact C2]|].
   split; [exists b'; exact E2|]. rewrite E3. split; reflexivity.
+Qed.
+
+(* the Unicode form consists of scalar values (so its UTF-8 form is a byte string) *)
+Theorem c12_unicode_usv A cfg : AdapterOK A -> AdapterUSV A -> NvNoTrunc A -> NvIdem A -> AsciiNoMark A -> MapPrefix A -> NvMapFix A ->
+  NvNoGrow A ->
+  forall d deny hy b a, bytes d -> valid_deny deny -> Known_C12 A cfg d deny hy = false ->
+  to_ascii A cfg d deny hy DIgnore = Ok (b, a) -> Known_C10_long a = false ->
+  usv_list (ui_text (to_unicode A cfg d deny hy)).
+Proof.
+  intros HOK HUSV HNT HNI HNM HMP HMF HNG d deny hy b a Hb Hv HK H Hlong. destruct (valid_deny_facts deny Hv) as [HU HL].
+  destruct (round_unicode2 A cfg deny hy HU HL HOK HUSV HNT HNI HNM HMP HMF HNG d b a Hb H Hlong HK) as (bu & u & b' & bu' & E1 & _ & _ & Hu).
+  rewrite E1. exact Hu.
 Qed.
